@@ -640,6 +640,8 @@ fn register_claim<C: ClaimChecker>(p: &mut C, spec: &ClaimSpec, u: ClaimUse) -> 
     }
     match spec.form {
         Form::KeyOnly => use_claim(p, CustomClaim::try_from(intern(key)).map_err(ctor_err)?, &u),
+        // a value with no JSON form (beyond 64 bits): handed over natively
+        Form::Native(11) => use_claim(p, CustomClaim::try_from((spec.key.clone(), u128::MAX)).map_err(ctor_err)?, &u),
         Form::Native(_) | Form::ForeignOneField => use_claim(p, CustomClaim::try_from((spec.key.clone(), spec.expected_json())).map_err(ctor_err)?, &u),
         _ => use_claim(p, CustomClaim::try_from((spec.key.clone(), spec.value.clone())).map_err(ctor_err)?, &u),
     }
@@ -660,6 +662,8 @@ pub enum BOp {
     /// v3/v4 only (ignored elsewhere: the method does not exist there, C19)
     Assertion(String),
     Build,
+    /// public protocols: build with key material the signer must refuse (then the history goes on)
+    BuildBadKey,
 }
 
 #[derive(Clone, Debug, PartialEq, Serialize, Deserialize)]
@@ -754,6 +758,18 @@ macro_rules! priv_key {
     };
 }
 
+macro_rules! bad_key_bytes {
+    (rsa) => {
+        vec![0x30, 0x82, 0x01, 0x00, 0x02, 0x01]
+    };
+    (ed) => {
+        vec![7u8; 32]
+    };
+    (p384) => {
+        vec![0u8; 48]
+    };
+}
+
 /// result of turning public-key bytes into the typed key
 macro_rules! pub_key_store {
     (rsa, $V:ident) => { Vec<u8> };
@@ -786,7 +802,7 @@ macro_rules! pub_key_typed {
 macro_rules! history_fns {
     // $open = parse-side key handling differs for local / public, so the two macros below wrap this
     ($V:ident, $P:ident, $ia:tt, $gen_finish:ident, $KeyTy:ty) => {
-        pub fn generic_builds(key: &$KeyTy, ops: &[BOp]) -> Vec<BEvent> {
+        pub fn generic_builds(key: &$KeyTy, bad: Option<&$KeyTy>, ops: &[BOp]) -> Vec<BEvent> {
             let mut ev = Vec::with_capacity(ops.len());
             let mut b = match guard(|| GenericBuilder::<$V, $P>::default()) {
                 Ok(b) => b,
@@ -820,13 +836,21 @@ macro_rules! history_fns {
                         Ok(Err(e)) => Out::Err(class_builder(&e)),
                         Err(p) => Out::Panic(p),
                     }),
+                    BOp::BuildBadKey => match bad {
+                        None => BEvent::Unsupported,
+                        Some(bk) => BEvent::Built(match guard(|| b.$gen_finish(bk)) {
+                            Ok(Ok(t)) => Out::Ok(t),
+                            Ok(Err(e)) => Out::Err(class_builder(&e)),
+                            Err(p) => Out::Panic(p),
+                        }),
+                    },
                 };
                 ev.push(e);
             }
             ev
         }
 
-        pub fn prelude_builds(key: &$KeyTy, ops: &[BOp]) -> Vec<BEvent> {
+        pub fn prelude_builds(key: &$KeyTy, bad: Option<&$KeyTy>, ops: &[BOp]) -> Vec<BEvent> {
             let mut ev = Vec::with_capacity(ops.len());
             let mut b = match guard(|| PasetoBuilder::<$V, $P>::default()) {
                 Ok(b) => b,
@@ -860,6 +884,14 @@ macro_rules! history_fns {
                         Ok(Err(e)) => Out::Err(class_builder(&e)),
                         Err(p) => Out::Panic(p),
                     }),
+                    BOp::BuildBadKey => match bad {
+                        None => BEvent::Unsupported,
+                        Some(bk) => BEvent::Built(match guard(|| b.build(bk)) {
+                            Ok(Ok(t)) => Out::Ok(t),
+                            Ok(Err(e)) => Out::Err(class_builder(&e)),
+                            Err(p) => Out::Panic(p),
+                        }),
+                    },
                 };
                 ev.push(e);
             }
@@ -1011,7 +1043,11 @@ macro_rules! local_proto {
                     let first = local_proto!(@encrypt $m, $V, b, k, seed);
                     b.set_payload(Payload::from(msg2));
                     let second = local_proto!(@encrypt $m, $V, b, k, seed);
-                    vec![first, second]
+                    // an explicit clone of the configured builder (the idiomatic way out of the &mut chain)
+                    #[allow(clippy::clone_on_copy)]
+                    let mut c = b.clone();
+                    let third = local_proto!(@encrypt $m, $V, c, k, seed);
+                    vec![first, second, third]
                 });
                 match r {
                     Ok(v) => v
@@ -1065,8 +1101,8 @@ macro_rules! local_proto {
             pub fn build_history(layer: Layer, key: &[u8], ops: &[BOp]) -> Vec<BEvent> {
                 let Some(k) = enc_key(key) else { return vec![BEvent::Built(Out::Err(ErrClass::Harness("key".into())))] };
                 match layer {
-                    Layer::Generic => generic_builds(&k, ops),
-                    Layer::Prelude => prelude_builds(&k, ops),
+                    Layer::Generic => generic_builds(&k, None, ops),
+                    Layer::Prelude => prelude_builds(&k, None, ops),
                     Layer::Core => vec![BEvent::Unsupported],
                 }
             }
@@ -1154,7 +1190,10 @@ macro_rules! public_proto {
                     let first = b.try_sign(&k);
                     b.set_payload(Payload::from(msg2));
                     let second = b.try_sign(&k);
-                    vec![first, second]
+                    #[allow(clippy::clone_on_copy)]
+                    let mut c = b.clone();
+                    let third = c.try_sign(&k);
+                    vec![first, second, third]
                 });
                 match r {
                     Ok(v) => v
@@ -1203,9 +1242,12 @@ macro_rules! public_proto {
 
             pub fn build_history(layer: Layer, key: &[u8], ops: &[BOp]) -> Vec<BEvent> {
                 priv_key!($kind, $V, key, k, vec![BEvent::Built(Out::Err(ErrClass::Harness("key".into())))]);
+                // key material every signer must refuse: truncated DER / a 32-byte Ed25519 "key pair" / the zero scalar
+                let bad_bytes: Vec<u8> = bad_key_bytes!($kind);
+                priv_key!($kind, $V, bad_bytes.as_slice(), bad, vec![BEvent::Built(Out::Err(ErrClass::Harness("bad key".into())))]);
                 match layer {
-                    Layer::Generic => generic_builds(&k, ops),
-                    Layer::Prelude => prelude_builds(&k, ops),
+                    Layer::Generic => generic_builds(&k, Some(&bad), ops),
+                    Layer::Prelude => prelude_builds(&k, Some(&bad), ops),
                     Layer::Core => vec![BEvent::Unsupported],
                 }
             }
